@@ -15,6 +15,7 @@ package h_routes
 import (
 	"fmt"
 	"net"
+	"runtime"
 	"sort"
 	"strings"
 	"syscall"
@@ -1627,7 +1628,13 @@ func run(r *core.R) {
 		routetable.WithNetlinkHandleShim(w.newHandle),
 	}
 	if conntrackOn {
-		opts = append(opts, routetable.WithConntrackShim(noopConntrack{w}))
+		// The cleanup manager starts one goroutine per address.  They must reach
+		// their blocking point at a seed-determined moment (not whenever the OS
+		// happens to preempt us), so yield to them from the liveness callback the
+		// RouteTable invokes at the top of every loop iteration: by the time it
+		// waits for a cleanup, the (no-op) cleanup has always finished.
+		opts = append(opts, routetable.WithConntrackShim(noopConntrack{w}),
+			routetable.WithLivenessCB(func() { runtime.Gosched(); runtime.Gosched() }))
 	} else {
 		opts = append(opts, routetable.WithConntrackCleanup(false))
 	}
